@@ -14,6 +14,8 @@ import z3
 from . import z as Z
 from .z import I, Val, VArr, KSet, KMap
 
+RESOLVER = [None]     # callable(addr1, addr2) -> True (equal) / False (distinct) / None (unknown) under the current path
+
 FIELDS = ('kind', 'klass', 'llen', 'elem', 'dk', 'dv', 'dsize')
 SORTS = {
     'kind': z3.ArraySort(I, I), 'klass': z3.ArraySort(I, I), 'llen': z3.ArraySort(I, I),
@@ -43,16 +45,37 @@ class Heap:
         return Heap(**kw)
 
     # ---- reads ----
-    def kind_of(self, a): return z3.Select(self.kind, a)
-    def class_of(self, a): return z3.Select(self.klass, a)
-    def len_of(self, a): return z3.Select(self.llen, a)
-    def elems(self, a): return z3.Select(self.elem, a)
-    def item(self, a, i): return z3.Select(z3.Select(self.elem, a), i)
-    def keys(self, a): return z3.Select(self.dk, a)
-    def vals(self, a): return z3.Select(self.dv, a)
-    def has_key(self, a, k): return z3.Select(z3.Select(self.dk, a), k)
-    def get(self, a, k): return z3.Select(z3.Select(self.dv, a), k)
-    def size_of(self, a): return z3.Select(self.dsize, a)
+    # reads are simplified at once: select-over-store and select-over-lambda (beta) reduce syntactically, which keeps
+    # terms small and gives E-matching the ground terms it needs.  Stores at *symbolic* addresses (allocations after a
+    # havoc) are peeled with the help of the current path condition (RESOLVER, set by the executor).
+    def _rd(self, arr, a):
+        t = z3.simplify(z3.Select(arr, a))
+        if RESOLVER[0] is not None and z3.is_app(t) and t.decl().kind() == z3.Z3_OP_SELECT:
+            base, idx = t.arg(0), t.arg(1)
+            changed = False
+            while z3.is_app(base) and base.decl().kind() == z3.Z3_OP_STORE:
+                r = RESOLVER[0](base.arg(1), idx)
+                if r is False:          # certainly a different address: skip this store
+                    base = base.arg(0)
+                    changed = True
+                elif r is True:         # certainly the same address
+                    return z3.simplify(base.arg(2))
+                else:
+                    break
+            if changed:
+                t = z3.simplify(z3.Select(base, idx))
+        return t
+
+    def kind_of(self, a): return self._rd(self.kind, a)
+    def class_of(self, a): return self._rd(self.klass, a)
+    def len_of(self, a): return self._rd(self.llen, a)
+    def elems(self, a): return self._rd(self.elem, a)
+    def item(self, a, i): return z3.simplify(z3.Select(self._rd(self.elem, a), i))
+    def keys(self, a): return self._rd(self.dk, a)
+    def vals(self, a): return self._rd(self.dv, a)
+    def has_key(self, a, k): return z3.simplify(z3.Select(self._rd(self.dk, a), k))
+    def get(self, a, k): return z3.simplify(z3.Select(self._rd(self.dv, a), k))
+    def size_of(self, a): return self._rd(self.dsize, a)
 
     # ---- allocation ----
     def new(self, kind, **init):
